@@ -11,7 +11,7 @@ UNKNOWN = 'zz_unknown'
 import os
 # get_triggers(<nested State object>) resolves the object by its local name on the unrepaired library (round-8
 # report (ii)); switch on once repaired
-STATE_OBJECTS = os.environ.get('VERIF_C11_STATEOBJ') == '1'
+STATE_OBJECTS = os.environ.get('VERIF_C11_STATEOBJ', '1') == '1'      # default on since /repo fix D55
 SEGS = ['A', 'B', 'C', 'P', 'x', 'y', '1', '2', 'u']
 
 
